@@ -1226,11 +1226,12 @@ func (sdb *DbSqlite) userCheck(email, password string) (data.Nodes, error) {
 			return false, err
 		}
 
+	nextEdge:
 		for _, e := range edges {
-			// make sure edge is not tombstone
+			// skip deleted edges, there may be another path to the root
 			for _, p := range e.Points {
 				if p.Type == data.PointTypeTombstone && p.Value != 0 {
-					return false, nil
+					continue nextEdge
 				}
 			}
 
